@@ -22,12 +22,12 @@ def main(tier, args):
         S = [("plain", plain, 0, 48, 3), ("plain", plain, 1, 200, 2), ("plain", plain, 1, 48, 1), ("plain", plain, 2, 48, 2), ("plain", plain, 3, 200, 2), ("plain", plain, 3, 48, 1),
              ("asan", asan, 0, 48, 2), ("asan", asan, 1, 200, 1), ("asan", asan, 2, 48, 1), ("tsan", tsan, 0, 48, 2), ("tsan", tsan, 1, 200, 1), ("tsan", tsan, 2, 48, 1)]
     jobs = [("%s:s%d_b%d" % (m, s, b), [exe, str(s), str(b), str(bd)]) for (m, exe, s, b, bd) in S]
-    jobs += [("inputs:len", [inp, "len"]), ("inputs:filter", [inp, "filter"]), ("inputs:file", [inp, "file", work]), ("inputs:stdout", [inp, "stdout", work])]
+    jobs += [("inputs:len", [inp, "len"]), ("inputs:filter", [inp, "filter"]), ("inputs:file", [inp, "file", work]), ("inputs:stdout", [inp, "stdout", work]), ("inputs:filterseq", [inp, "filterseq", "4" if tier == "quick" else "6"])]
     if args.only: jobs = [j for j in jobs if j[0] == args.only]
     vf.run_procs(res, jobs, env={"VERIF_DEADLINE_S": str(dl), "VERIF_WORKERS": "3", "VERIF_TIER": tier, "TSAN_OPTIONS": "report_signal_unsafe=0:exitcode=0"}, log=log, jobs=7)
     shutil.rmtree(work, ignore_errors=True)
     vf.finish(PID, tier, res, t0,
               rule="(S) stateless DFS over all interleavings (preemption+timed-flush deviations bounded per scenario: " + ", ".join("%s s%d buf%d <=%d" % (m, s, b, bd) for (m, e, s, b, bd) in S) + ") of 1-2 logging threads calling the real LogPrintfFunc into a synchronous recording Sink and an AsyncSink on the real AsyncPipe (buffers smaller than one record), then disable(); every line must equal an expected record, each once, per-thread order kept. "
                    "(I) exhaustive sweeps: text length {0..8, 2046..2050, max-1, max, max+1, max+7} x max in {1,10,2047,2048,2049,4096} x {puts, %s, %c%s}; all 8 levels x 8 default thresholds x {unset,0..7} per-module threshold (+unset) x 2 modules on both sink kinds; "
-                   "both stdout sinks (fd 1 captured): colour x 8 levels x max {4,100} x lengths {0,1,4,5,9} x with/without function name against the documented record format; file sink with size limit in {1, record-1, record, record+1, 3 records, 1 MiB} x 1..6 records x 3 pacings under a virtual wall clock (same-second roll-over): files concatenated in creation order == records, none split",
+                   "BFS over histories (depth 4, thorough 6) of setLevel(default|module)/unsetLevel(module)/log(module,level) on one long-lived sink of each kind; both stdout sinks (fd 1 captured): colour x 8 levels x max {4,100} x lengths {0,1,4,5,9} x with/without function name against the documented record format; file sink with size limit in {1, record-1, record, record+1, 3 records, 1 MiB} x 1..6 records x 3 pacings under a virtual wall clock (same-second roll-over): files concatenated in creation order == records, none split",
               assumptions=["module/function/file strings have static storage as __func__/__FILE__ do (the async back-end dereferences them later)", "maximum text length 0 is not in the enumerated domain", "pacing in the file-sink sweep uses real 150 ms sleeps only to let the 100 ms timed flush happen; correctness does not depend on it"])
